@@ -375,6 +375,19 @@ fn post_frames(e: &mut Emu, n: usize) -> String {
             }
             while e.next_audio_sample().is_some() {}
         }
+        // whatever program runs next may touch any device port before initialising it: the same
+        // port cycles the CPU would perform, on the state the loader left behind
+        for p in [0xFFFDu16, 0xFFFE, 0x7FFE, 0x001F, 0xFADF, 0xFBDF, 0xFFDF, 0x00FF, 0xCCCC] {
+            let _ = e.verif_read_io(p);
+        }
+        for (p, v) in [(0xBFFDu16, 0x0Fu8), (0x00FE, 0x15), (0xBFFD, 0xFF)] {
+            e.verif_write_io(p, v);
+        }
+        let _ = e.verif_read_io(0xFFFD);
+        if let Err(err) = e.emulate_frames(Duration::from_secs(1)) {
+            return Err(err_name(&err));
+        }
+        while e.next_audio_sample().is_some() {}
         Ok(())
     }));
     match r {
